@@ -206,7 +206,7 @@ RULE = ("pipelines on machines 1x1..8x8 (quick) / ..24x24 (thorough), torus / me
         "machine with 15-40% dead links. Wrapper-model stream: the same problem generator, placer = sequential, api = "
         "place_and_route_wrapper (3 of 4) / deprecated wrapper (1 of 4, reserve_monitor / align_sdram on and off), every radius "
         "and method chain, targets = the SystemInfo's free router entries (1023 / 0 / 2 / 5 / 12, per-chip exceptions), resource "
-        "identifiers default or custom; 100 (quick) / 1500 (thorough) problems, every fourth on a machine with 15-40% dead "
+        "identifiers default or custom; 100 (quick) / 1000 (thorough) problems, every fourth on a machine with 15-40% dead "
         "links. Sequence stream: 220 (quick) / 2000 (thorough) sequences of 2-4 pipeline runs on "
         "machines 2x1..5x1 / 4x4, placer in {sequential, hilbert, rcm, breadth_first, rand, sa-python}, api in "
         "{hand-chained, build_machine, place_and_route_wrapper with 1-5 free router entries}, methods {default, oc}, target "
@@ -2845,7 +2845,7 @@ def run(ctx):
     eval_scale(ctx, ctx.scale(3, 12))
     # the wrapper models (subject of `wrapper_pipeline_delivers`) = the real wrappers, SystemInfo onwards
     # (last, so that the earlier streams draw what they drew before this stream existed)
-    nwrap = ctx.scale(100, 1500)
+    nwrap = ctx.scale(100, 1000)
     if ctx.extended:
         nwrap *= 4
     wprobs = []
